@@ -125,34 +125,45 @@ Proof. intros H. rewrite count_is_length_core. unfold count. now rewrite (col_is
 
 Definition total (l : list N) : N := fold_right N.add 0 l.
 
+Definition usize_max : N := two64 - 1.
+
+(* the loop of get_buffer_sum: the exact total, capped at usize::MAX -- in every build *)
+Lemma sum_loop_sat b l : forall acc, acc <= usize_max ->
+  sum_loop b acc l = Ok (N.min (acc + total l) usize_max).
+Proof.
+  unfold usize_max.
+  induction l as [|v l IH]; intros acc Ha; cbn [sum_loop total fold_right].
+  - f_equal. lia.
+  - fold (total l). unfold sat_add. rewrite IH by lia. f_equal. lia.
+Qed.
+
 Lemma sum_loop_ok b l : forall acc, acc + total l < two64 -> sum_loop b acc l = Ok (acc + total l).
 Proof.
-  induction l as [|v l IH]; intros acc H; cbn [sum_loop total fold_right] in *.
-  - f_equal. lia.
-  - fold (total l) in *. assert (E : (acc + v <? two64) = true) by (apply N.ltb_lt; lia).
-    rewrite E, IH by lia. f_equal. lia.
+  intros acc H. rewrite sum_loop_sat by (unfold usize_max, two64 in *; lia).
+  f_equal. unfold usize_max, two64 in *. lia.
 Qed.
 
-Lemma sum_loop_debug_overflow l : forall acc, acc < two64 -> two64 <= acc + total l ->
-  exists msg, sum_loop Debug acc l = Panic msg.
+Lemma sum_loop_saturated b l : forall acc, acc < two64 -> two64 <= acc + total l ->
+  sum_loop b acc l = Ok usize_max.
 Proof.
-  induction l as [|v l IH]; intros acc Ha H; cbn [sum_loop total fold_right] in *.
-  - lia.
-  - fold (total l) in *. destruct (acc + v <? two64) eqn:E.
-    + apply N.ltb_lt in E. apply IH; [exact E | lia].
-    + eexists. reflexivity.
+  intros acc Ha H. rewrite sum_loop_sat by (unfold usize_max, two64 in *; lia).
+  f_equal. unfold usize_max, two64 in *. lia.
 Qed.
 
-Lemma sum_loop_release l : forall acc, acc < two64 ->
-  sum_loop Release acc l = Ok ((acc + total l) mod two64).
+(* saturating_add does not depend on overflow-checks: the build is irrelevant *)
+Lemma sum_loop_build b b' l : forall acc, sum_loop b acc l = sum_loop b' acc l.
+Proof. induction l as [|v l IH]; intros acc; cbn [sum_loop]; [reflexivity | apply IH]. Qed.
+
+(* for every build and every buffer: the total of the values that parse as usize, capped *)
+Theorem buffer_sum_saturates b buf key :
+  get_buffer_sum b buf key = Ok (N.min (total (usizes buf key)) (two64 - 1)).
 Proof.
-  induction l as [|v l IH]; intros acc Ha; cbn [sum_loop total fold_right].
-  - rewrite N.add_0_r, N.mod_small by exact Ha. reflexivity.
-  - fold (total l). destruct (acc + v <? two64) eqn:E.
-    + apply N.ltb_lt in E. rewrite IH by exact E. f_equal. f_equal. lia.
-    + rewrite IH by (apply N.mod_lt; discriminate).
-      f_equal. rewrite N.add_mod_idemp_l by discriminate. f_equal. lia.
+  unfold get_buffer_sum. rewrite sum_loop_sat by (unfold usize_max, two64; lia). now rewrite N.add_0_l.
 Qed.
+
+Theorem sum_saturates b buf key :
+  agg_sum b buf key = Ok (show_N (N.min (total (usizes buf key)) (two64 - 1))).
+Proof. unfold agg_sum. now rewrite buffer_sum_saturates. Qed.
 
 Lemma total_to_N xs : Forall (fun x => 0 <= x)%Z xs -> total (map Z.to_N xs) = Z.to_N (sum xs).
 Proof.
@@ -187,31 +198,26 @@ Proof.
   cbn [bind]. f_equal. rewrite N.add_0_l, <- show_Z_of_N. f_equal. lia.
 Qed.
 
-(* ... and beyond the bound a debug build panics, a release build prints the sum modulo 2^64 *)
-Theorem sum_overflow_debug_core buf key xs :
-  col_is buf key xs -> Forall in_usize xs -> (2 ^ 64 <= sum xs)%Z ->
-  exists msg, agg_sum Debug buf key = Panic msg.
+(* ... and beyond the bound it is usize::MAX, in every build (it used to be a panic in a debug build
+   and the sum modulo 2^64 in a release build) *)
+Theorem sum_canonical_core b buf key xs :
+  col_is buf key xs -> Forall in_usize xs ->
+  agg_sum b buf key = Ok (show_Z (Z.min (sum xs) (2 ^ 64 - 1))).
 Proof.
-  intros Hc Hu Hb. change (2 ^ 64)%Z with 18446744073709551616%Z in Hb.
+  intros Hc Hu. change (2 ^ 64 - 1)%Z with 18446744073709551615%Z.
   assert (Hpos : Forall (fun x => 0 <= x)%Z xs) by (eapply Forall_impl; [|exact Hu]; unfold in_usize; cbn; intros; lia).
-  unfold agg_sum, get_buffer_sum, usizes.
-  rewrite (column_col_is _ _ _ Hc), (usizes_canonical xs Hu).
-  destruct (sum_loop_debug_overflow (map Z.to_N xs) 0) as [msg E].
-  - unfold two64; lia.
-  - rewrite (total_to_N xs Hpos). unfold two64. lia.
-  - exists msg. now rewrite E.
+  rewrite sum_saturates. unfold usizes.
+  rewrite (column_col_is _ _ _ Hc), (usizes_canonical xs Hu), (total_to_N xs Hpos).
+  pose proof (sum_nonneg xs Hpos) as Hs.
+  f_equal. rewrite <- show_Z_of_N. f_equal. unfold two64. lia.
 Qed.
 
-Theorem sum_release_wraps_core buf key xs :
-  col_is buf key xs -> Forall in_usize xs ->
-  agg_sum Release buf key = Ok (show_Z (sum xs mod 2 ^ 64)).
+Theorem sum_saturated_core b buf key xs :
+  col_is buf key xs -> Forall in_usize xs -> (2 ^ 64 <= sum xs)%Z ->
+  agg_sum b buf key = Ok (show_Z (2 ^ 64 - 1)).
 Proof.
-  intros Hc Hu.
-  assert (Hpos : Forall (fun x => 0 <= x)%Z xs) by (eapply Forall_impl; [|exact Hu]; unfold in_usize; cbn; intros; lia).
-  unfold agg_sum, get_buffer_sum, usizes.
-  rewrite (column_col_is _ _ _ Hc), (usizes_canonical xs Hu), sum_loop_release by (unfold two64; lia).
-  cbn [bind]. f_equal. rewrite N.add_0_l, (total_to_N xs Hpos), <- show_Z_of_N. f_equal.
-  pose proof (sum_nonneg xs Hpos). unfold two64. rewrite N2Z.inj_mod. f_equal. lia.
+  intros Hc Hu Hb. rewrite (sum_canonical_core b buf key xs Hc Hu). f_equal. f_equal.
+  change (2 ^ 64)%Z with 18446744073709551616%Z in *. lia.
 Qed.
 
 (* MIN / MAX: reduce from the left = textbook minimum / maximum *)
@@ -288,8 +294,7 @@ Qed.
 Theorem sum_general_core buf key : total (usizes buf key) < two64 ->
   agg_sum Debug buf key = Ok (show_N (total (usizes buf key))).
 Proof.
-  intros H. unfold agg_sum, get_buffer_sum.
-  rewrite sum_loop_ok by (rewrite N.add_0_l; exact H). now rewrite N.add_0_l.
+  intros H. rewrite sum_saturates. f_equal. f_equal. unfold two64 in *. lia.
 Qed.
 
 (* ------------------------------------------------------------------ *)
@@ -309,15 +314,36 @@ Theorem sum_exact d buf key xs :
   get_aggregate_value (Some FnSum) buf key d = Ok (show_Z (sum xs)).
 Proof. exact (sum_exact_core buf key xs). Qed.
 
-Theorem sum_overflow_debug d buf key xs :
-  col_is buf key xs -> Forall in_usize xs -> (2 ^ 64 <= sum xs)%Z ->
-  exists msg, get_aggregate_value (Some FnSum) buf key d = Panic msg.
-Proof. exact (sum_overflow_debug_core buf key xs). Qed.
+(* SUM never fails and never wraps: for every build, every buffer, whatever it contains *)
+Theorem sum_saturates_value b d buf key :
+  get_aggregate_value_b b (Some FnSum) buf key d = Ok (show_N (N.min (total (usizes buf key)) (two64 - 1))).
+Proof. exact (sum_saturates b buf key). Qed.
 
-Theorem sum_release_wraps d buf key xs :
+Theorem sum_canonical b d buf key xs :
   col_is buf key xs -> Forall in_usize xs ->
-  get_aggregate_value_b Release (Some FnSum) buf key d = Ok (show_Z (sum xs mod 2 ^ 64)).
-Proof. exact (sum_release_wraps_core buf key xs). Qed.
+  get_aggregate_value_b b (Some FnSum) buf key d = Ok (show_Z (Z.min (sum xs) (2 ^ 64 - 1))).
+Proof. exact (sum_canonical_core b buf key xs). Qed.
+
+Theorem sum_saturated b d buf key xs :
+  col_is buf key xs -> Forall in_usize xs -> (2 ^ 64 <= sum xs)%Z ->
+  get_aggregate_value_b b (Some FnSum) buf key d = Ok (show_Z (2 ^ 64 - 1)).
+Proof. exact (sum_saturated_core b buf key xs). Qed.
+
+(* the build no longer matters for any aggregate *)
+Theorem aggregate_build_irrelevant b b' f buf key d :
+  get_aggregate_value_b b f buf key d = get_aggregate_value_b b' f buf key d.
+Proof.
+  assert (E : get_buffer_sum b buf key = get_buffer_sum b' buf key) by apply sum_loop_build.
+  unfold get_aggregate_value_b, agg_sum, get_variance. now rewrite E.
+Qed.
+
+(* ... and no aggregate can fail any more: the result is always Ok *)
+Theorem aggregate_total b f buf key d : exists out, get_aggregate_value_b b f buf key d = Ok out.
+Proof.
+  unfold get_aggregate_value_b, agg_sum, get_variance. rewrite buffer_sum_saturates. cbn [bind].
+  destruct f as [f|]; [|eexists; reflexivity].
+  destruct f; try (eexists; reflexivity); destruct (is_empty buf); eexists; reflexivity.
+Qed.
 
 Theorem sum_general d buf key : total (usizes buf key) < two64 ->
   get_aggregate_value (Some FnSum) buf key d = Ok (show_N (total (usizes buf key))).
@@ -391,7 +417,7 @@ Definition mean_Q : N -> nat -> Q := mean_g Q Qdiv q_of_N.
 Definition variance_Q : N -> nat -> nat -> list str -> Q :=
   variance_g Q Qplus Qminus Qmult Qdiv 0 q_of_N parse_Q.
 
-(* get_variance with exact arithmetic and no overflow: sum = the usize sum of the column *)
+(* get_variance with exact arithmetic and an unsaturated sum (total < 2^64): sum = the usize sum of the column *)
 Definition exact_variance (buf : buffer) (key : str) (n : nat) : Q :=
   variance_Q (total (usizes buf key)) (length buf) n (column buf key).
 
@@ -752,7 +778,7 @@ Proof.
   destruct H as [-> | H]; [lia | specialize (IH H); lia].
 Qed.
 
-(* the same at the level of the printed strings: if the SUM of the whole buffer does not overflow,
+(* the same at the level of the printed strings: if the SUM of the whole buffer does not saturate,
    neither does any group, every SUM is the decimal text of its sum_val, and the values add up *)
 Theorem partition_conservation_core ks buf key : sum_val key buf < two64 ->
   agg_sum Debug buf key = Ok (show_N (sum_val key buf)) /\
@@ -809,6 +835,21 @@ Proof.
   destruct buf as [|r buf]; [contradiction|]. cbn [is_empty]. unfold sum_val, get_buffer_sum.
   rewrite sum_loop_ok by (rewrite N.add_0_l; exact H). now rewrite N.add_0_l.
 Qed.
+
+(* without the bound: the mean is taken from the saturated sum (every build, every non-empty buffer) *)
+Theorem avg_saturates b d buf key : buf <> [] ->
+  get_aggregate_value_b b (Some FnAvg) buf key d =
+  Ok (show_f64 (mean_f (N.min (sum_val key buf) (two64 - 1)) (length buf))).
+Proof.
+  intros Hne. cbn [get_aggregate_value_b].
+  destruct buf as [|r buf]; [contradiction|]. cbn [is_empty]. now rewrite buffer_sum_saturates.
+Qed.
+
+(* VAR / STDDEV: get_variance takes its mean from the same saturated sum *)
+Theorem variance_saturates b buf key n :
+  get_variance b buf key n =
+  Ok (variance_f (N.min (sum_val key buf) (two64 - 1)) (length buf) n (column buf key)).
+Proof. unfold get_variance. now rewrite buffer_sum_saturates. Qed.
 
 Corollary avg_empty d key : get_aggregate_value (Some FnAvg) [] key d = Ok (s "0"%string).
 Proof. reflexivity. Qed.
@@ -916,11 +957,17 @@ Example ex_mixed :
   map (fun f => get_aggregate_value (Some f) exmixed ksize None) [FnMin; FnMax; FnSum; FnCount; FnAvg; FnVarPop]
   = map (fun x => Ok (s x)) ["-3"; "6"; "10"; "6"; "1.6666666666666667"; "7.782407407407407"]%string.
 Proof. vm_compute. reflexivity. Qed.
-(* usize overflow: Panic in a debug build, wrapped sum in a release build *)
+(* a total beyond usize::MAX: SUM stays at 2^64 - 1 in both builds, AVG/VAR/STDDEV use that sum
+   (the strings are what the fixed implementation prints) *)
 Definition exbig : buffer := mk "size" ["18446744073709551615"; "2"]%string.
-Example ex_overflow_debug : is_ok (get_aggregate_value (Some FnSum) exbig ksize None) = false.
+Example ex_saturates_debug : get_aggregate_value (Some FnSum) exbig ksize None = Ok (s "18446744073709551615"%string).
 Proof. vm_compute. reflexivity. Qed.
-Example ex_overflow_release : get_aggregate_value_b Release (Some FnSum) exbig ksize None = Ok (s "1"%string).
+Example ex_saturates_release : get_aggregate_value_b Release (Some FnSum) exbig ksize None = Ok (s "18446744073709551615"%string).
+Proof. vm_compute. reflexivity. Qed.
+Example ex_saturates_avg : get_aggregate_value (Some FnAvg) exbig ksize None = Ok (s "9223372036854776000"%string).
+Proof. vm_compute. reflexivity. Qed.
+Definition exhalf : buffer := mk "size" ["9223372036854775808"; "9223372036854775808"; "5"]%string.
+Example ex_saturates_half : get_aggregate_value (Some FnSum) exhalf ksize None = Ok (s "18446744073709551615"%string).
 Proof. vm_compute. reflexivity. Qed.
 
 (* GROUP BY on two keys, groups in order of first occurrence, missing key = empty string *)
@@ -944,16 +991,23 @@ Proof. vm_compute. reflexivity. Qed.
 (* ================================================================== *)
 Print Assumptions count_is_length_core.
 Print Assumptions sum_exact_core.
-Print Assumptions sum_overflow_debug_core.
-Print Assumptions sum_release_wraps_core.
+Print Assumptions buffer_sum_saturates.
+Print Assumptions sum_saturates.
+Print Assumptions sum_general_core.
+Print Assumptions sum_canonical_core.
+Print Assumptions sum_saturated_core.
 Print Assumptions min_exact_core.
 Print Assumptions max_exact_core.
 Print Assumptions min_exact_nonempty_core.
 Print Assumptions partition_conservation_core.
 Print Assumptions count_is_length.
 Print Assumptions sum_exact.
-Print Assumptions sum_overflow_debug.
-Print Assumptions sum_release_wraps.
+Print Assumptions sum_saturates_value.
+Print Assumptions sum_canonical.
+Print Assumptions sum_saturated.
+Print Assumptions sum_general.
+Print Assumptions aggregate_build_irrelevant.
+Print Assumptions aggregate_total.
 Print Assumptions min_exact.
 Print Assumptions max_exact.
 Print Assumptions min_exact_nonempty.
@@ -971,5 +1025,7 @@ Print Assumptions partition_conservation.
 Print Assumptions group_is_restriction.
 Print Assumptions group_aggregate_is_restriction.
 Print Assumptions avg_general.
+Print Assumptions avg_saturates.
+Print Assumptions variance_saturates.
 Print Assumptions avg_exact_small.
 Print Assumptions ex_stddev_samp.
